@@ -10,6 +10,7 @@ from engine import slicer
 from engine.core import Job, VERIF, extract_inputs, array_from
 from engine.routeb import gotocc_cpp, cbmc_argv, STD
 from engine.selftest import subst
+from props import builderjobs
 
 ID = "C16"
 USES_CPP = True   # adds the front-end assumption canaries (engine/frontend.py) to every run of this check
@@ -21,7 +22,9 @@ MANIFEST = {
                 "by goto-instrument --dfcc over all 256 values; (bounded) for every name without NUL/newline up to the tier length, the text "
                 "GetShellEscapedString appends is split by an independent POSIX word-splitting spec into exactly one word equal to the name, and is the "
                 "name itself when all characters are safe; (bounded) EdgeEnv::MakePathList over lists of up to 2/3 such names yields exactly those words in order. "
-                "The response-file clause (written before start, removed after success) is OS/Builder state and is not decided.",
+                "Response-file clause (modular, real text of Builder::StartEdge / FinishCommand against contract stubs of DiskInterface and CommandRunner): the response file is written with exactly "
+                "the evaluated rspfile_content - whatever it is, including empty - before the command is started, nothing is started if it cannot be written, it is removed after the command "
+                "succeeds (unless -d keeprsp) and kept when it fails. That rspfile_content itself is evaluated as documented belongs to C12.",
         "design_ref": "DESIGN.md 5 C16",
     },
     "level_note": "trusted: cbmc 6.11, stubs/std/string model, specs/sh_words.h (POSIX XCU 2.2/2.3 subset; tied to the installed /bin/sh by the native replay), "
@@ -296,6 +299,7 @@ def jobs(tier, mutant=None):
                 weight=2.2 ** sum(lens) * 2)
         j.lens = lens
         js.append(j)
+    js += builderjobs.select(tier, ["B1", "B2"], r'\bC16\b', mutant)
     return js
 
 
@@ -313,6 +317,9 @@ MUTANTS = [
     ("space_safe", _m("safe", "case '+':", "case '+':\n    case ' ':")),
     ("needs_escaping_skips_last", _m("needs", "i < input.size()", "i + 1 < input.size()")),
     ("separator_missing_between_first_two", _m("mpl", "if (!result.empty())\n      result.push_back(sep);", "if (i == span + 2)\n      result.push_back(sep);")),
+    ("empty_rspfile_not_written", _m("StartEdge", "if (!disk_interface_->WriteFile(rspfile, content, true))", "if (!content.empty() && !disk_interface_->WriteFile(rspfile, content, true))")),
+    ("rspfile_written_after_start", _m("StartEdge", "  // start command computing and run it\n  if (!command_runner_->StartCommand(edge)) {\n    err->assign(\"command '\" + edge->EvaluateCommand() + \"' failed.\");\n    return false;\n  }\n", "  if (!command_runner_->StartCommand(edge)) {\n    return false;\n  }\n  if (!rspfile.empty()) disk_interface_->WriteFile(rspfile, edge->GetBinding(\"rspfile_content\"), true);\n")),
+    ("rspfile_removed_on_failure", _m("FinishCommand", "  if (!result.success()) {\n    return plan_.EdgeFinished(edge, Plan::kEdgeFailed, err);", "  if (!result.success()) {\n    disk_interface_->RemoveFile(edge->GetUnescapedRspfile());\n    return plan_.EdgeFinished(edge, Plan::kEdgeFailed, err);")),
     ("list_not_escaped", _m("mpl", "if (escape_in_out_ == kShellEscape) {", "if (escape_in_out_ != kShellEscape) {")),
 ]
 
@@ -398,8 +405,7 @@ def describe(tier):
             "sh semantics are those of specs/sh_words.h; counterexamples are additionally replayed through the installed /bin/sh",
             "bytes >= 0x80 are ordinary characters to sh (POSIX locale)",
         ],
-        "silent": ["response file written with exactly rspfile_content before start, removed after success, kept on failure",
-                   "posix_spawn of /bin/sh -c"],
+        "silent": ["posix_spawn of /bin/sh -c", "evaluation of rspfile_content (C12)"],
         "explanation": "DFCC contract proof for the safe-character table; contract harnesses (post from the property statement, oracle = POSIX word splitting) "
                        "on sliced GetShellEscapedString/MakePathList for every name/list within the bounds; bounded except the table.",
     }
